@@ -147,6 +147,12 @@ def check_modules(obl):
         yield "MLP", lambda s: MLP(3, 2, [4], "relu", nnx.Rngs(s)), 3
         yield "LayerNormMLP", lambda s: LayerNormMLP(3, 2, [4], "relu", nnx.Rngs(s)), 3
         yield "DoubleQ", lambda s: ContinuousClippedDoubleQNet(MLP(3, 1, [4], "relu", nnx.Rngs(s)), MLP(3, 1, [4], "tanh", nnx.Rngs(s + 1))), 3
+        # a module with NON-Param variables (action_scale / action_bias): the policy heads of DDPG / TD3 / TD7 / SAC / MR.Q
+        import gymnasium as gym
+        from rl_blox.blox.function_approximator.policy_head import DeterministicTanhPolicy
+
+        box = lambda s: gym.spaces.Box(np.array([-1.0 - s, 0.0], np.float32), np.array([2.0, 0.5 + s], np.float32))  # noqa: E731
+        yield "TanhPolicy", lambda s: DeterministicTanhPolicy(MLP(3, 2, [4], "relu", nnx.Rngs(s)), box(s % 7)), 3
     cases = 0
     x = jnp.asarray(np.random.default_rng(0).normal(size=(4, 3)))
     for name, mk, d in mods():
@@ -162,7 +168,12 @@ def check_modules(obl):
                 lg = OrbaxCheckpointer(checkpoint_dir=td)
                 path = os.path.join(os.path.abspath(td), f"{name}_ckpt")
                 lg.save_model(path, net)
-                rest = restore_checkpoint(path, other)
+                try:
+                    rest = restore_checkpoint(path, other)
+                except ValueError as e:  # the checkpoint does not cover the module's variables
+                    obl(f"{name}.orbax.parameters_identical", False, f"checkpoint written by save_model cannot be restored: {e}")
+                    cases += 1
+                    continue
                 obl(f"{name}.orbax.parameters_identical", leaves(rest) == leaves(net), "")
                 obl(f"{name}.orbax.same_outputs", np.asarray(rest(x)).tobytes() == np.asarray(net(x)).tobytes(), "")
             except TypeError as e:
